@@ -1,6 +1,6 @@
 """Property -> rules wiring and MANIFEST metadata."""
 from . import facts
-from .rules import f5_trace, f6_kinds, f7_roots, f4_gc, f4_chan, f4_sched, f4_vm, f1_isa, f9_casts, f10_parity, f2_emit, f4_exc, f4_cache, f4_obj, f11_peephole, f8_hazards, f1c_ops
+from .rules import f5_trace, f6_kinds, f7_roots, f4_gc, f4_chan, f4_sched, f4_vm, f1_isa, f9_casts, f10_parity, f2_emit, f2_visit, f4_exc, f4_cache, f4_obj, f11_peephole, f8_hazards, f1c_ops
 
 
 def D(rec):
@@ -85,7 +85,10 @@ def c02(rec, tier):
     S = SY(rec)
     f2_emit.run_twins(rec, S)
     f2_emit.run_declare_define(rec, S)
+    f2_visit.run(rec, S)
     f4_obj.run_closures(rec, F)
+    # a captured variable lives as long as a closure or a running frame refers to it
+    f5_trace.run(rec, F, only_adts=("laythe_core::object::closure::Closure", "laythe_core::captures::Captures", "laythe_core::object::ly_box::LyBox", "laythe_vm::fiber::call_frame::CallFrame", "laythe_vm::fiber::Fiber"))
     T = f1_isa.run_tables(rec, F)
     f1_isa.run_width(rec, F, T)
 
@@ -273,7 +276,7 @@ META = {
         "design_ref": "DESIGN.md §3 C03",
     },
     "C04": {
-        "text": "try_/catch emission skeletons; every explicit early exit emits the guarded PopHandler before its transfer; multiplicity contradiction (constant-bounded pops vs unbounded nesting, nothing clears handlers on frame exit); handler depth provenance (must depend on arity because unwinding restores stack_start + slot_depth and stack_start lies below the arguments); unwind sets stack_top/frame/ip together; catch filter direction and jump edge; FinishUnwind/ContinueUnwind/handler-error bookkeeping; raise filter; F1.e over the exception opcodes. Which handler a dynamic raise reaches and state preservation as an input/output relation are declined.",
+        "text": "try_/catch emission skeletons; every explicit early exit emits the guarded PopHandler before its transfer; multiplicity contradiction (constant-bounded pops vs unbounded nesting, nothing clears handlers on frame exit); handler depth provenance (must depend on arity because unwinding restores stack_start + slot_depth and stack_start lies below the arguments); unwind sets stack_top/frame/ip together; catch filter direction and jump edge; FinishUnwind/ContinueUnwind/handler-error bookkeeping; raise filter; F1.e over the exception opcodes. The compiler's try/loop/class nesting records are saved on entry and exactly the saved value restored, with try_ restoring between the protected block and the catch clauses (F2.scope); the catch variable is defined with the state its declaration returned (F2.d); natives that can run a user callable are declared with_stack so unwinding stops at the native boundary (F4.native-env); nothing evaluated only under debug assertions borrows state mutably (F10.dbg: release and debug builds pop the same handlers). Which handler a dynamic raise reaches and state preservation as an input/output relation are declined.",
         "note": "Emission-flow obligations (F3: linear depth = real depth at every try) are in the thorough tier.",
         "technique": "static analysis: emission-order queries on the syntax tree + MIR dominance/def-use + handler dataflow",
         "design_ref": "DESIGN.md §3 C04",
@@ -285,7 +288,7 @@ META = {
         "design_ref": "DESIGN.md §3 C12, §2 F11",
     },
     "C13": {
-        "text": "In every cache-using handler the probed class is the filled class with the instruction's single slot operand; the cached payload was looked up on that class with the instruction's own name operand; every normally-ending path hits, fills or clears the slot (shadowing paths clear); lookups return their payload only on class equality; cache-using instructions are always followed by their slot pseudo-op; cache coverage for re-compiled modules; cache entries hold raw class pointers so the cache must be a GC root or be invalidated by collection (F5 on Vm). Behaviour over receiver histories is declined.",
+        "text": "In every cache-using handler the probed class is the filled class with the instruction's single slot operand; the cached payload was looked up on that class with the instruction's own name operand; every normally-ending path hits, fills or clears the slot (shadowing paths clear); lookups return their payload only on class equality; cache-using instructions are always followed by their slot pseudo-op; cache coverage for re-compiled modules; cache entries hold raw class pointers so the cache must be a GC root or be invalidated by collection (F5 on Vm). Hits are taken only on the class-equality edge and the fill stores the looked-up payload (hit-vs-fill); fixed-index property instructions are only emitted for a receiver whose class is statically known to be the enclosing class (F2.f-recv). Behaviour over receiver histories is declined.",
         "note": "Structural clauses only.",
         "technique": "static analysis: MIR root-identity/def-use + path dataflow; syntax adjacency for slot pairing",
         "design_ref": "DESIGN.md §3 C13",
@@ -297,13 +300,13 @@ META = {
         "design_ref": "DESIGN.md §3 C06, §2 F1",
     },
     "C07": {
-        "text": "Necessary structural conditions of exactly-once FIFO delivery decided on ChannelQueue and the two VM handlers: the buffer is mutated only by send's push_back(val) and receive's pop_front; every enqueue is control-dependent on the strict len<capacity test or on (sync && empty) and on the Ready state; the closed protocol of close()/receive; views share the buffer and respect their direction; per result variant the queue moved the value XOR the handler rewinds and re-pushes. Decides these clauses, not ordering across interleavings of several senders/receivers.",
+        "text": "Necessary structural conditions of exactly-once FIFO delivery decided on ChannelQueue and the two VM handlers: the buffer is mutated only by send's push_back(val) and receive's pop_front; every enqueue is control-dependent on the strict len<capacity test or on (sync && empty) and on the Ready state; the closed protocol of close()/receive; views share the buffer and respect their direction; per result variant the queue moved the value XOR the handler rewinds and re-pushes. A sync channel hands over at most one value per rendezvous and parks the sender until it is taken (F4.chan-sync/F4.chan-park); the channel's Trace impl reaches the queue, both waiter sets and every buffered value (F5). Decides these clauses, not ordering across interleavings of several senders/receivers.",
         "note": "Trusts VecDeque's FIFO semantics; rewind width/stack neutrality are decided by F1.r (C06).",
         "technique": "static analysis: who-may-write on a field, dominating-guard extraction, per-variant path effects on MIR",
         "design_ref": "DESIGN.md §3 C07",
     },
     "C08": {
-        "text": "Scheduler shape decided over all VM code: one deadlock emission site under (ContextSwitch && fiber_queue empty); every ContextSwitch is preceded on all paths by exactly one block/sleep/complete and every park is followed by ContextSwitch; every parking arm first tries to wake a waiter; no created fiber is orphaned; complete() prefers a pending parent; every channel state change registers the channel with the acting fiber or wakes a waiter (findability). Decides these clauses, not liveness over all topologies.",
+        "text": "Scheduler shape decided over all VM code: one deadlock emission site under (ContextSwitch && fiber_queue empty); every ContextSwitch is preceded on all paths by exactly one block/sleep/complete and every park is followed by ContextSwitch; every parking arm first tries to wake a waiter; no created fiber is orphaned; complete() prefers a pending parent; every channel state change registers the channel with the acting fiber or wakes a waiter (findability). The run queue is FIFO (push_back/pop_front, F4.runq); closing a channel wakes every waiter and a woken fiber re-executes its instruction (F4.closed-wake). Decides these clauses, not liveness over all topologies.",
         "note": "Wake-ups are lazy in Laythe (found via the acting fiber's used-channel list); the findability clause encodes that design.",
         "technique": "static analysis: path-sensitive dataflow over MIR CFGs, dominance / post-dominance, call-graph who-may-call",
         "design_ref": "DESIGN.md §3 C08",
@@ -333,19 +336,19 @@ META = {
         "design_ref": "DESIGN.md §3 C11",
     },
     "C16": {
-        "text": "Crash-freedom clauses decided over all 130 natives and all VM code: every unchecked cast (Value::to_num/to_bool/to_obj, ObjectRef::to_*) on an argument, callback result, iterator value, stack operand or element of a user object is justified by the declared ParameterKind, a dominating kind test, or a named compiler-provenance site; constant indices into args stay below the declared arity's minimum; call_native checks the signature first and the three signature testers agree; is_valid's table; superclass admissibility (receiver soundness); guarded slices of constant arrays; frame-limit guard dominates every push_frame; kind<->cast tables (F6).",
+        "text": "Crash-freedom clauses decided over all 130 natives and all VM code: every unchecked cast (Value::to_num/to_bool/to_obj, ObjectRef::to_*) on an argument, callback result, iterator value, stack operand or element of a user object is justified by the declared ParameterKind, a dominating kind test, or a named compiler-provenance site; constant indices into args stay below the declared arity's minimum; call_native checks the signature first and the three signature testers agree; is_valid's table; superclass admissibility (receiver soundness); guarded slices of constant arrays; frame-limit guard dominates every push_frame; kind<->cast tables (F6). Declared arity covers every args[i] the body reads (F9.a coverage); library indexing is guarded (F9.x); sizes taken from user numbers are range-checked before a cast or allocation (F9.size); no reachable todo!/unimplemented! on an input-dependent path (F4.todo).",
         "note": "Reachability of the ~40 'impossible state' internal_error sites is declined.",
         "technique": "static analysis: dominance + taint on MIR",
         "design_ref": "DESIGN.md §3 C16",
     },
     "C17": {
-        "text": "Export gate: every Module method through which the import handlers obtain symbol values consults Module.exports; module_instance iterates exports; get_exported_symbol_by_name returns Some only under exports.contains. Once-only: compile-and-run only on ModuleDoesNotExist, every Compiled result has passed insert_module of the same module, the importer sleeps as parent of the queued child.",
+        "text": "Export gate: every Module method through which the import handlers obtain symbol values consults Module.exports; module_instance iterates exports; get_exported_symbol_by_name returns Some only under exports.contains. Once-only: compile-and-run only on ModuleDoesNotExist, every Compiled result has passed insert_module of the same module, the importer sleeps as parent of the queued child. The module cache value stored is the inserted module itself and the cache is only written after a successful insert (F4.once); module symbol/export/module tables are traced (F5).",
         "note": "Behaviour over arbitrary import graphs is declined; rewind widths are decided by F1.r.",
         "technique": "static analysis: call-graph + field-read analysis + dominance on MIR",
         "design_ref": "DESIGN.md §3 C17",
     },
     "C18": {
-        "text": "Status mapping decided by def-use: Vm::run returns Exit's code, non-zero constants for both error results, Ok unreachable; main passes .0 to process::exit; exit_code has one writer and every Exit signal is constructed with a status; both ip->line translations subtract one. (Line-table lock-step is decided by F1.w/F11 as they are wired in.)",
+        "text": "Status mapping decided by def-use: Vm::run returns Exit's code, non-zero constants for both error results, Ok unreachable; main passes .0 to process::exit; exit_code has one writer and every Exit signal is constructed with a status; both ip->line translations subtract one. (Line-table lock-step is decided by F1.w/F11 as they are wired in.) Hook results carrying LyError::Exit map to an exit signal (F4.hook-exit); scanner loops that swallow characters count newlines through new_line(), which pushes onto line_offsets (F1.line-scan); pause_unwind records the ips of exactly the frames not yet recorded (rev().skip(recorded).take(missing)) and error_backtrace/print_error pair frames innermost first (F10.bt); the error object, its message and its backtrace lines are rooted while the others are allocated (F8/F8.c on the unwind functions); F1.w keeps the line table in step with the code.",
         "note": "That recorded lines equal the true source lines for every layout is declined.",
         "technique": "static analysis: def-use and sibling comparison on MIR",
         "design_ref": "DESIGN.md §3 C18",
@@ -357,13 +360,13 @@ META = {
         "design_ref": "DESIGN.md §3 C19",
     },
     "C05": {
-        "text": "Structural necessary conditions of GC safety decided over all code: every gc-bearing field of every Trace/TraceRoot impl is traced (F5), raw-pointer holders perform their trace steps on every path (F5.p), kind<->type<->cast tables agree (F6), temp roots balance on every path (F7), GC phases are ordered and the object being allocated is rooted during the collection it triggers (F4). Decides these clauses, not schedule-independence of program output.",
+        "text": "Structural necessary conditions of GC safety decided over all code: every gc-bearing field of every Trace/TraceRoot impl is traced (F5), raw-pointer holders perform their trace steps on every path (F5.p), kind<->type<->cast tables agree (F6), temp roots balance on every path (F7), GC phases are ordered and the object being allocated is rooted during the collection it triggers (F4). A generic container's trace reaches Trace::trace for every type parameter it stores (F5.g); fresh handles are not held across a collection point in Rust locals, native struct fields or eagerly accumulating iterator closures (F8/F8.c); list growth leaves a forwarding pointer in the old allocation (F6.moved). The GC rules are evaluated on the default and on the gc_stress build's MIR. Decides these clauses, not schedule-independence of program output.",
         "note": "Trusts rustc's MIR (nightly, -Zmir-opt-level=0) as the program; exception table of aliased fields in lyverif/rules/f5_trace.py (one named field + reason each); the rooting discipline of native code between allocations (F8) is only in the thorough tier and under-reports by design.",
         "technique": "static analysis: MIR dataflow (field->trace taint, post-dominators), table cross-check, path-sensitive balance",
         "design_ref": "DESIGN.md §3 C05, §2 F5-F8",
     },
     "C09": {
-        "text": "Strings are equal iff same address, so content equality holds iff every LyStr allocation goes through the intern funnel: decided as who-may-allocate (only a function that looks up first and inserts the managed string afterwards), who-may-write intern_cache, key derived from the managed bytes, eviction ordered after marking and before the sweeps, eviction keeps exactly the marked.",
+        "text": "Strings are equal iff same address, so content equality holds iff every LyStr allocation goes through the intern funnel: decided as who-may-allocate (only a function that looks up first and inserts the managed string afterwards), who-may-write intern_cache, key derived from the managed bytes, eviction ordered after marking and before the sweeps, eviction keeps exactly the marked. The phase order is decided with the sweep helpers inlined and on both the default and the gc_stress configuration (where cfg'd early returns change the paths); Map's trace reaches its keys (F5.g).",
         "note": "Trusts hashbrown's HashMap and that Value equality on objects is pointer equality (checked structurally in C10/C14 rules).",
         "technique": "static analysis: call-graph who-may-call + dominance/post-dominance + def-use on MIR",
         "design_ref": "DESIGN.md §3 C09",
